@@ -246,6 +246,9 @@ class C03(Prop):
                                 ops.append("v2 " + G.spec(G.header(vc, afp, ln, G.rand_bytes(rng, present))))
         for _ in range(3000 if tier == "quick" else 100000):
             ops.append("tlv " + C.hexs(bytes(rng.choice([0, 0, 1, 2, 3, 255, rng.getrandbits(8)]) for _ in range(rng.randint(0, 20)))))
+        for h, c in G.big_header_cuts(rng, tier):
+            ops.append("v2 " + G.spec(h[:c]))
+            ops.append("auto " + G.spec(h[:c]))
         # value lengths at the u16 boundary with the value present: cursor arithmetic in a narrow type overflows only here
         for sec in G.tlv_boundary_sections(rng):
             ops.append("tlv " + G.spec(sec))
@@ -377,6 +380,10 @@ class C05(Prop):
                 for e in ("v2", "auto"):
                     ops.append("%s %s" % (e, G.spec(h[:c])))
                     self._meta.append(("v2", h, c))
+        for h, c in G.big_header_cuts(rng, tier):
+            for e in ("v2", "auto"):
+                ops.append("%s %s" % (e, G.spec(h[:c])))
+                self._meta.append(("v2", h, c))
         return ops
 
     def project(self, op, line):
